@@ -223,4 +223,6 @@ Conforms == diag = <<>>                    \* per step (use with -continue), or 
 NoFrameViolation == pviol = <<>>
 NoFinding == l <= Len(TraceLog) \/ found = <<>>     \* ... once, at the end of the trace, with all findings
 Accepted == TLCGet("stats").diameter = Len(TraceLog) + 1
+(* error traces are printed through this alias: the accumulated findings are in the FOUND file, not in every state *)
+Brief == [l |-> l, diag |-> diag, pviol |-> pviol, findings |-> Len(found)]
 =============================================================================
